@@ -242,3 +242,110 @@ M.contract('contracts.C17b_shared_objects:harness_shared_stacked_path_resolved_i
            params=dict(rel_option=REL_SDS, name=Str, name2=Str, sds_a=SDS, sds_b=SDS),
            ensures={'the second case gets the path in ITS sandbox: the same as in a run of its own': lambda result: result},
            raises_only=())
+
+
+# ============================================================================ (c) every case: the processor of ITS suite
+# "Phase contents written in a suite file are executed in every case listed directly in that suite ... and not in
+# cases of its sub-suites": `SuitesExecutor` (one object for the whole run) must process the cases of a suite with a
+# processor constructed from the configuration of THAT suite.  C16 proves this for suite lists of any length
+# (monitor: `cur_processor_setup is cur_suite.test_case_handling_setup` at every `apply`); those contracts carry C17.
+
+def _share_c16():
+    from contracts.common import share_contracts
+    wanted = (':SuitesExecutor._process_single_sub_suite', ':SuitesExecutor.execute_and_report',
+              ':SuitesExecutor._configuration_for_cases_in_suite', ':_process_and_time', ':_process_case')
+    return share_contracts('C17', 'contracts.C16_suite',
+                           lambda q: q.startswith('exactly_lib.test_suite.processing:') and q.endswith(wanted))
+
+
+SHARED_WITH_C16 = _share_c16()
+
+
+# ---- the same statement as a clause of C17's own, about the run as a whole (everything below `execute_and_report`
+# is interpreted from the real source, whatever its internal structure): TWO suites of a hierarchy (the first lists
+# two cases, the second one) with different handling setups.  Fixed number of suites/cases: the proof for any
+# number is the one shared with C16 above; this one states WHICH setup in terms of the trace of the run.
+
+from contracts.C17_independence import HANDLING_SETUP, PROC_CONFIGURATION
+from exactly_lib.test_suite import structure, processing as suite_processing
+
+
+class CaseProcessorI(Interface):
+    """a test-case processor (environment: any result)"""
+    methods = {'apply': Method(returns=Any_, event='apply')}
+
+
+class ProcessorConstructorI(Interface):
+    """TestCaseProcessorConstructor: Configuration -> Processor (a processor of its own for every call)"""
+    methods = {'__call__': Method(returns=Iface(CaseProcessorI), event='new-processor')}
+
+
+class ProgressReporterI(Interface):
+    methods = {'suite_begin': Method(), 'suite_end': Method(), 'case_begin': Method(), 'case_end': Method()}
+
+
+class SubSuiteReporterI(Interface):
+    attrs = {'progress_reporter': Iface(ProgressReporterI)}
+    methods = {'case_end': Method()}
+
+
+class RootReporterI(Interface):
+    methods = {'root_suite_begin': Method(), 'root_suite_end': Method(),
+               'new_sub_suite_reporter': Method(returns=Iface(SubSuiteReporterI)),
+               'report_final_results': Method(returns=Int)}
+
+
+def _suite_listing(*cases):
+    return Inst(structure.TestSuiteHierarchy,
+                _TestSuiteHierarchy__source_file=Any_,
+                _TestSuiteHierarchy__suite_file_inclusions_leading_to_this_file=Any_,
+                _TestSuiteHierarchy__test_case_handling_setup=HANDLING_SETUP,
+                _TestSuiteHierarchy__sub_test_suites=Any_,
+                _TestSuiteHierarchy__test_cases=FixedList(*cases))
+
+
+def processors_made(trace):
+    """(configuration given, processor returned) of every processor construction"""
+    conf = [e[2][0] for e in trace if e[0] == 'new-processor']
+    made = [e[2] for e in trace if e[0] == 'new-processor:returned']
+    return list(zip(conf, made))
+
+
+def applications(trace):
+    """(processor, case) of every case that was processed, in order"""
+    return [(e[1], e[2][0]) for e in trace if e[0] == 'apply']
+
+
+def made_for(trace, processor, suite):
+    """`processor` was constructed from a configuration that carries the handling setup of `suite`"""
+    return any(p is processor and conf.default_handling_setup is suite.test_case_handling_setup
+               for (conf, p) in processors_made(trace))
+
+
+def harness_cases_of_two_suites_are_processed(reporter, default_configuration, processor_constructor,
+                                              sub_suite, root_suite):
+    executor = suite_processing.SuitesExecutor(reporter, default_configuration, processor_constructor)
+    return executor.execute_and_report([sub_suite, root_suite])       # depth first: the root suite comes last
+
+
+M.contract('contracts.C17b_shared_objects:harness_cases_of_two_suites_are_processed',
+           params=dict(reporter=Iface(RootReporterI), default_configuration=PROC_CONFIGURATION,
+                       processor_constructor=Iface(ProcessorConstructorI),
+                       sub_suite=_suite_listing(Any_, Any_), root_suite=_suite_listing(Any_)),
+           ensures={
+               'every listed case is processed once, in order': lambda sub_suite, root_suite, trace:
+               len(applications(trace)) == 3
+               and applications(trace)[0][1] is sub_suite.test_cases[0]
+               and applications(trace)[1][1] is sub_suite.test_cases[1]
+               and applications(trace)[2][1] is root_suite.test_cases[0],
+               'the cases of the sub-suite: by a processor made from the handling setup of the sub-suite': lambda sub_suite, trace:
+               made_for(trace, applications(trace)[0][0], sub_suite)
+               and made_for(trace, applications(trace)[1][0], sub_suite),
+               'the case of the root suite: by a processor made from the handling setup of the root suite': lambda root_suite, trace:
+               made_for(trace, applications(trace)[2][0], root_suite),
+               'no processor is made from any other handling setup': lambda sub_suite, root_suite, trace:
+               all(conf.default_handling_setup is sub_suite.test_case_handling_setup
+                   or conf.default_handling_setup is root_suite.test_case_handling_setup
+                   for (conf, p) in processors_made(trace)),
+           },
+           raises_only=())
